@@ -157,10 +157,12 @@ Qed.
 
 (* the slow path of handle_data: insert unless present, drain the run that starts at cum+1 *)
 Definition slow (st : rstate) (c : chunk) : rstate * list event :=
-  let rq1 := if rq_mem (c_tsn c) (r_rq st) then r_rq st else r_rq st ++ [c] in
+  let present := rq_mem (c_tsn c) (r_rq st) in
+  let rq1 := if present then r_rq st else r_rq st ++ [c] in
+  let used1 := if present then r_used st else cast_usize (r_used st + chunk_len c) in
   let '(batch, rq2) := take_run (length rq1) (w32 (r_cum st + 1)) rq1 in
   let '(a1, evs, n, _) := proc_batch (r_app st) batch in
-  (mkR (r_conn st) (w32 (r_cum st + n)) rq2 a1, evs).
+  (mkR (r_conn st) (w32 (r_cum st + n)) rq2 a1 (cast_usize (used1 - sum_len (firstn (Z.to_nat n) batch))), evs).
 
 Lemma rq_mem_true t q : rq_mem t q = true -> exists e, In e q /\ c_tsn e = t.
 Proof.
@@ -179,7 +181,7 @@ Lemma slow_inv k st c j :
   Inv k st -> nth_error cs j = Some c -> (k <= j)%nat ->
   exists m, advances k st (fst (slow st c)) (snd (slow st c)) m /\ seen (k + m) (fst (slow st c)) c.
 Proof.
-  intros [Hk Hconn Hcum Hrq Hnx Happ] Hj Hge. unfold slow.
+  intros [Hk Hconn Hcum Hrq Hnx Happ] Hj Hge. unfold slow. cbn zeta.
   set (rq1 := if rq_mem (c_tsn c) (r_rq st) then r_rq st else r_rq st ++ [c]).
   assert (Hrq1 : rq_ok k rq1).
   { subst rq1. destruct (rq_mem (c_tsn c) (r_rq st)); [exact Hrq|].
@@ -363,6 +365,12 @@ Proof.
   - pose proof (nth_cs _ _ Ec) as (Tc & _ & _). apply rq_find_in in Hin. rewrite Tc in Hin. contradiction.
 Qed.
 
+Lemma inv_full_queue_empty st : Inv (length ps) st -> r_rq st = [].
+Proof.
+  intros [_ _ _ Hrq _ _]. destruct (r_rq st) as [|e q]; [reflexivity|exfalso].
+  inversion Hrq as [|? ? (j & Hj & Hn) _]; subst. apply nth_cs in Hn. lia.
+Qed.
+
 End Refine.
 
 Lemma inv_init t0 ps rc : Inv t0 ps (mkApp rc []) 0 (est_r (w32 (t0 - 1)) rc).
@@ -483,4 +491,20 @@ Proof.
   - intros sid. rewrite log_of_app, Hl, HL. unfold ideal, seg. cbn [firstn skipn proc_all fst List.app]. reflexivity.
   - intros Hall. eapply all_seen_all_consumed; [exact Hlen|exact HI2|].
     intros c Hc'. apply Hseen. apply Hall. exact Hc'.
+Qed.
+
+(* once every chunk has arrived at least once the reorder queue is empty *)
+Theorem recv_complete_queue_empty t0 ps rc h :
+  Z.of_nat (length ps) < 2147483648 ->
+  Forall not_dcep ps ->
+  Forall (ok_input t0 ps) h ->
+  (forall c, In c (stamp t0 ps) -> In (IData c) h) ->
+  r_rq (fst (run (est_r (w32 (t0 - 1)) rc) h)) = [].
+Proof.
+  intros Hlen Hdata Hok Hall.
+  destruct (run_inv t0 ps (mkApp rc []) Hlen Hdata h 0%nat _ (inv_init t0 ps rc) Hok) as (m & (HI & _ & _) & Hseen).
+  cbn [Nat.add] in HI, Hseen.
+  assert (m = length ps).
+  { eapply all_seen_all_consumed; [exact Hlen|exact HI|]. intros c Hc. apply Hseen, Hall, Hc. }
+  subst m. eapply inv_full_queue_empty. exact HI.
 Qed.
